@@ -99,10 +99,12 @@ when `bitmap = None`, for *every* identifier (any `height : u8`, `idx : u64`), M
 and proof:
 * `root` is never `Ok(None)` and none of `root` / `first_unpruned_parent` / `validate` /
   `validate_with` panics (the `bitmap.unwrap()` of `first_unpruned_parent` is not reached);
-* if the position range starts with a leaf position `p` (it does for every range computed without
+* if the segment exists in the MMR (`segment_unpruned_size ≠ 0`, the guard of repair 362e7d94e)
+  and the position range starts with a leaf position `p` (it does for every range computed without
   wrap-around: `first = insertion_to_pmmr_index(leaf_offset)`; see the `FullId` corollary), all four
   answer exactly `MissingLeaf(p)` — before any hash of the segment or of the proof is looked at;
-* if the position range is empty, `root` (hence all four) answers `NonExistent`.
+* if the segment does not exist in the MMR or its position range is empty, `root` (hence all
+  four) answers `NonExistent`.
 In particular `validate` never returns `Ok` for such a segment with a non-empty range. -/
 theorem pruned_segment_requires_bitmap (hf : HashFn α H) [DecidableEq H] (s : Segment α H) (size : Nat)
     (mmrRoot : H) (hlp : Nat) (other : H) (left : Bool)
@@ -110,24 +112,32 @@ theorem pruned_segment_requires_bitmap (hf : HashFn α H) [DecidableEq H] (s : S
     (s.root hf size none ≠ .ok none ∧ s.root hf size none ≠ .panic ∧
       s.firstUnprunedParent hf size none ≠ .panic ∧ s.validate hf size none mmrRoot ≠ .panic ∧
       s.validateWith hf size none mmrRoot hlp other left ≠ .panic) ∧
-    (∀ p ps, s.id.positions size = p :: ps → height p = 0 →
+    (∀ p ps, s.id.unprunedSize size ≠ 0 → s.id.positions size = p :: ps → height p = 0 →
       s.root hf size none = .err (.missingLeaf p) ∧
       s.firstUnprunedParent hf size none = .err (.missingLeaf p) ∧
       s.validate hf size none mmrRoot = .err (.missingLeaf p) ∧
       s.validateWith hf size none mmrRoot hlp other left = .err (.missingLeaf p)) ∧
-    (s.id.positions size = [] → s.root hf size none = .err .nonExistent ∧
+    (s.id.unprunedSize size = 0 ∨ s.id.positions size = [] →
+      s.root hf size none = .err .nonExistent ∧
       s.validate hf size none mmrRoot = .err .nonExistent) := by
   refine ⟨⟨?_, ?_, firstUnprunedParent_no_panic hf s size none, validate_no_panic hf s size none mmrRoot,
     validateWith_no_panic hf s size none mmrRoot hlp other left⟩, ?_, ?_⟩
-  · unfold Segment.root; exact rootWith_none_some hf s size _ _ _
-  · unfold Segment.root; exact rootWith_no_panic hf s none size _ _ _
-  · intro p ps hpos hp
-    exact leafless_no_bitmap hf s size mmrRoot hlp other left p ps hno hpos hp
+  · by_cases hz : s.id.unprunedSize size = 0
+    · rw [root_of_empty hf s size none hz]; simp
+    · rw [root_of_nonempty hf s size none hz]; exact rootWith_none_some hf s size _ _ _
+  · by_cases hz : s.id.unprunedSize size = 0
+    · rw [root_of_empty hf s size none hz]; simp
+    · rw [root_of_nonempty hf s size none hz]; exact rootWith_no_panic hf s none size _ _ _
+  · intro p ps hex hpos hp
+    exact leafless_no_bitmap hf s size mmrRoot hlp other left p ps hno hex hpos hp
   · intro he
     have hr : s.root hf size none = .err .nonExistent := by
-      unfold Segment.root
-      rw [he, peaksIn_of_empty_range s.id size he]
-      exact rootWith_empty_range hf s size none _
+      by_cases hz : s.id.unprunedSize size = 0
+      · exact root_of_empty hf s size none hz
+      · rcases he with he | he
+        · exact absurd he hz
+        · rw [root_of_nonempty hf s size none hz, he, peaksIn_of_empty_range s.id size he]
+          exact rootWith_empty_range hf s size none _
     refine ⟨hr, ?_⟩
     unfold Segment.validate Segment.firstUnprunedParent
     rw [hr]; rfl
@@ -145,7 +155,8 @@ theorem pruned_full_segment_requires_bitmap (hf : HashFn α H) [DecidableEq H] (
     s.validateWith hf size none mmrRoot hlp other left =
       .err (.missingLeaf (mmr (s.id.idx * 2 ^ s.id.height))) := by
   obtain ⟨ps, hpos, hp⟩ := full_positions_head s.id size v
-  exact leafless_no_bitmap hf s size mmrRoot hlp other left _ ps hno hpos hp
+  exact leafless_no_bitmap hf s size mmrRoot hlp other left _ ps hno
+    (unprunedSize_ne_zero_of_full s.id size (full_arith s.id size v).2.2.1) hpos hp
 
 /-- Non-vacuity: segment (height 1, idx 1) of the 7-leaf MMR (size 11, range 3..=5) carrying one
 hash at its last position and one proof hash, no leaves: `FullId` holds, and without a bitmap
@@ -386,6 +397,63 @@ example : [1, 1023, 1024, 1025, 2047, 2048, 2049, 4096, 4097].map Dsg.expectedCh
     Dsg.accChunkCount [0, 5, 1024, 3000, 2048] 3001 = 3 ∧ Dsg.accChunkCount [0, 5] 2049 = 1 := by
   decide +kernel
 
+/-! ## A segment that does not exist in the MMR is refused (repair 362e7d94e) -/
+
+/-- **nonexistent_segment_refused.**  A segment whose identifier lies beyond the MMR — no leaf of
+its range exists in an MMR of the given size (`segment_unpruned_size(mmr_size) = 0`: the leaf offset
+`idx · 2^height` is at or beyond `n_leaves(mmr_size)`), **in particular every segment against the
+empty MMR** (`mmr_size = 0`) — is refused with `NonExistent` by `root`, `first_unpruned_parent`,
+`validate` and `validate_with`, whatever leaves, hashes and proof it carries and whatever the
+bitmap: the position range is never computed, let alone walked (before the repair the range of the
+empty MMR was `0..=2^64−1`). -/
+theorem nonexistent_segment_refused (hf : HashFn α H) [DecidableEq H] (s : Segment α H) (size : Nat)
+    (bm : Option (Nat → Bool)) (mmrRoot : H) (hlp : Nat) (other : H) (left : Bool)
+    (h : s.id.unprunedSize size = 0) :
+    s.root hf size bm = .err .nonExistent ∧
+    s.firstUnprunedParent hf size bm = .err .nonExistent ∧
+    s.validate hf size bm mmrRoot = .err .nonExistent ∧
+    s.validateWith hf size bm mmrRoot hlp other left = .err .nonExistent := by
+  have hr := root_of_empty hf s size bm h
+  have hfup : s.firstUnprunedParent hf size bm = .err .nonExistent := by
+    unfold Segment.firstUnprunedParent; rw [hr]; rfl
+  refine ⟨hr, hfup, ?_, ?_⟩
+  · unfold Segment.validate; rw [hfup]; rfl
+  · unfold Segment.validateWith; rw [hfup]; rfl
+
+/-- … the hypothesis spelled out: the identifier lies beyond the MMR iff the (wrapping) leaf offset
+is at or beyond the number of leaves; every identifier lies beyond the empty MMR. -/
+theorem beyond_mmr_iff (id : Ident) (size : Nat) :
+    (id.unprunedSize size = 0 ↔ nLeaves size ≤ id.leafOffset) ∧ id.unprunedSize 0 = 0 := by
+  have hc := capacity_pos id
+  constructor
+  · unfold Ident.unprunedSize satSub; omega
+  · have h0 : nLeaves 0 = 0 := by
+      have := GV.Props.C07.nLeaves_at_leaf_boundary 0
+      have e : mmr 0 = 0 := by simp [mmr, popcount]
+      rw [e] at this; exact this
+    unfold Ident.unprunedSize satSub; rw [h0]; omega
+
+/-- Non-vacuity: a segment with leaves, hashes and a proof, identifier (1, 0): refused with
+`NonExistent` against the empty MMR, with and without a bitmap; identifier (0, 9) of the 7-leaf MMR
+(size 11, leaves 0..6) likewise. -/
+example :
+    let hsum : HashFn Nat Nat := ⟨fun _ x => x, fun _ l r => l + r⟩
+    let s : Segment Nat Nat :=
+      { id := ⟨1, 0⟩, hashPos := [2], hashes := [42], leafPos := [0, 1], leafData := [5, 6], proof := [7] }
+    s.validate hsum 0 none 49 = .err .nonExistent ∧
+    s.validateWith hsum 0 (some fun _ => true) 49 3 8 true = .err .nonExistent ∧
+    Segment.validate hsum { s with id := ⟨0, 9⟩ } 11 none 49 = .err .nonExistent := by
+  intro hsum s
+  have h7 : nLeaves 11 = 7 := by
+    have := GV.Props.C07.nLeaves_at_leaf_boundary 7
+    have e : mmr 7 = 11 := by simp [mmr, popcount]
+    rw [e] at this; exact this
+  refine ⟨(nonexistent_segment_refused hsum s 0 none 49 0 0 false (beyond_mmr_iff s.id 0).2).2.2.1,
+    (nonexistent_segment_refused hsum s 0 _ 49 3 8 true (beyond_mmr_iff s.id 0).2).2.2.2, ?_⟩
+  refine (nonexistent_segment_refused hsum { s with id := ⟨0, 9⟩ } 11 none 49 0 0 false ?_).2.2.1
+  rw [(beyond_mmr_iff ⟨0, 9⟩ 11).1, h7]
+  decide
+
 /-! ## Soundness: what validation reads is determined by the root -/
 
 /-- **Segment soundness (full segments).**  Fix an MMR size, a bitmap (or none) and a root.
@@ -557,7 +625,7 @@ theorem unspent_leaf_must_be_present (hf : HashFn α H) [DecidableEq H] (s : Seg
     ∃ x, (p, x) ∈ s.leafPos.zip s.leafData ∧ Ev.leaf p x ∈ segReads hf s size bm := by
   obtain ⟨x0, hx0⟩ := fup_ok_of_validate hf s size bm mmrRoot h
   obtain ⟨o, ho⟩ := root_ok_of_fup_ok hf s size bm x0 hx0
-  unfold Segment.root at ho
+  have ho := (root_ok_rootWith hf s size bm o ho).2
   unfold segReads
   exact rootWith_required hf s bm size _ _ _ o ho p hp hleaf hreq
 
